@@ -253,16 +253,16 @@ func (g *gemExtension) compare(e extension) int {
 			return -1
 		}
 		if ac == versionNumeric {
-			return sgn64(a.int, b.int)
+			if c := sgn64(a.int, b.int); c != 0 {
+				return c
+			}
+			continue
 		}
 		c := strings.Compare(a.str, b.str)
 		if c == 0 {
 			continue
 		}
 		return c
-	}
-	if len(bs) > len(as) {
-		return -1
 	}
 	return 0
 }
